@@ -1,0 +1,23 @@
+//go:build verif
+
+package deps
+
+import "sort"
+
+// VerifDeps returns current in-block indices of all instructions the
+// instruction at index i depends on (back) and of all instructions depending
+// on it (fwd). It exists only in builds with the verif tag and is used by the
+// verification harness to check dependency ordering after moves.
+func (b Block) VerifDeps(i int) (back []int, fwd []int) {
+	ins := b.index(i)
+	for d := range ins.depsBack {
+		back = append(back, d.blockIdx)
+	}
+	for d := range ins.depsFwd {
+		fwd = append(fwd, d.blockIdx)
+	}
+
+	sort.Ints(back)
+	sort.Ints(fwd)
+	return back, fwd
+}
